@@ -49,28 +49,16 @@ the unwrap never fails. -/
 theorem base_unwrap_safe : ∀ w, Matches Gen.IRI_REGEX w → Matches Oxiri.abs w :=
   decideIncl_sound _ _ (by native_decide)
 
-/-! ### IRIs checked by oxiri: included except for the upper-case IPvFuture marker -/
+/-! ### IRIs checked by oxiri (upper- and lower-case IPvFuture marker alike, since /repo 94adeaf) -/
 
-/-- full statement (strict syntaxes, `<…>` without base, RDF/XML IRI attributes) -/
-def OxiriAbsSubValidator : Prop := ∀ w, Matches rioIriAbs w → Matches Gen.IRI_REGEX w
-/-- full statement (generalized N-Quads) -/
-def OxiriRefSubValidator : Prop := ∀ w, Matches rioIriRef w → Matches Gen.IRI_REF_REGEX w
-
-/-- oxiri with a lower-case `v` only: included in (indeed, with `base_unwrap_safe`, essentially equal
-to) the toolkit's absolute-IRI language. -/
-theorem oxiri_abs_sub_validator_partial : ∀ w, Matches Oxiri.absLower w → Matches Gen.IRI_REGEX w :=
+/-- strict syntaxes (`<…>` without base, datatypes), RDF/XML IRI attributes without base: every IRI
+`oxiri::Iri::parse` lets through is accepted by `Iri::new`. -/
+theorem oxiri_abs_sub_validator : ∀ w, Matches rioIriAbs w → Matches Gen.IRI_REGEX w :=
   decideIncl_sound _ _ (by native_decide)
 
-theorem oxiri_ref_sub_validator_partial : ∀ w, Matches Oxiri.refLower w → Matches Gen.IRI_REF_REGEX w :=
+/-- generalized N-Quads: every reference `oxiri::IriRef::parse` lets through is accepted by `IriRef::new`. -/
+theorem oxiri_ref_sub_validator : ∀ w, Matches rioIriRef w → Matches Gen.IRI_REF_REGEX w :=
   decideIncl_sound _ _ (by native_decide)
-
-/-- oxiri accepts `[V…]` (RFC 3986 literals are case-insensitive), `IRI_REGEX` spells `v` only:
-`<A://[V0.!]>` in N-Triples reaches `Trusted<NamedNode>::iri()` and trips its `debug_assert!`. -/
-theorem oxiri_abs_sub_validator_refuted : ¬ OxiriAbsSubValidator := fun h =>
-  absurd (h (ofStr "A://[V0.!]") (by decide)) (by decide)
-
-theorem oxiri_ref_sub_validator_refuted : ¬ OxiriRefSubValidator := fun h =>
-  absurd (h (ofStr "A://[V0.!]") (by decide)) (by decide)
 
 /-! ### recognisers that consult no validator at all -/
 
@@ -147,8 +135,9 @@ example : Matches rioVar (ofStr "9é_") := by decide
 example : Matches rioLang (ofStr "zh-hant-cn-x-private") := by decide
 example : Matches rioLang (ofStr "i-klingon") := by decide
 example : ¬ Matches rioLang (ofStr "e") := by decide
-example : Matches Oxiri.absLower (ofStr "http://u@[1:2::3:4:5:6:7]:80/a//b?c#d") := by decide
-example : Matches Oxiri.refLower (ofStr "../é/%41?q") := by decide
+example : Matches rioIriAbs (ofStr "http://u@[1:2::3:4:5:6:7]:80/a//b?c#d") := by decide
+example : Matches rioIriAbs (ofStr "A://[V0.!]") := by decide
+example : Matches rioIriRef (ofStr "../é/%41?q") := by decide
 example : ¬ Matches Oxiri.ref (ofStr "//:!") := by decide
 example : Matches Gen.IRI_REGEX (ofStr "http://[v7.a:b]/") := by decide
 example : Matches xmlNodeIdNoTrailingDot (ofStr "a.b") := by decide
